@@ -141,8 +141,6 @@ def pending (g : Gz) : List Nat := if g.headerSent then [] else [if g.wroteHeade
 theorem gz_commit_whs (g : Gz) : whs g.commit.1 = pending g ∧ g.commit.2.headerSent = true := by
   simp only [Gz.commit, pending]; split <;> simp_all [whs]
 
-def bodyOnly (ops : List Op) : Prop := ∀ o ∈ ops, (∃ c, o = .w c) ∨ o = .fl
-def headerOnly (ops : List Op) : Prop := ∀ o ∈ ops, o.isHeaderOp = true
 
 theorem gz_body_whs (ops : List Op) (hb : bodyOnly ops) : ∀ (g : Gz) (h : Hdr),
     (g.bufferExceeded = true → g.headerSent = true) →
